@@ -37,7 +37,7 @@ func wfWire(r *RNG) []byte {
 func hostileBuf(r *RNG) []byte {
 	switch r.Intn(6) {
 	case 0: // random
-		return r.Bytes(r.Intn(40))
+		return r.Bytes(r.Pick(r.Intn(40), r.Intn(40), r.Intn(300)))
 	case 1: // truncated valid
 		b := wfWire(r)
 		return b[:r.Intn(len(b)+1)]
@@ -52,14 +52,14 @@ func hostileBuf(r *RNG) []byte {
 		}
 		return b
 	case 3: // structured: header with X bit, chosen profile, hostile block
-		cc := r.Pick(0, 0, 1, 15)
+		cc := r.Pick(0, 0, 1, 15, r.Intn(16))
 		b := []byte{byte(0x90 | cc | r.Pick(0, 0x20)), byte(r.Intn(256))}
 		b = append(b, r.Bytes(10+4*cc)...)
-		prof := [][]byte{{0xBE, 0xDE}, {0x10, 0x00}, {0x12, 0x34}}[r.Intn(3)]
+		prof := [][]byte{{0xBE, 0xDE}, {0x10, 0x00}, {0x12, 0x34}, {0x10, byte(1 + r.Intn(15))}, {0x10, 0x10}}[r.Intn(5)]
 		b = append(b, prof...)
 		words := r.Pick(0, 1, 1, 2, 3, 200, 0x4000, 0x8001, 0xC000, 0xFFFF)
 		b = append(b, byte(words>>8), byte(words))
-		body := make([]byte, r.Intn(16))
+		body := make([]byte, r.Pick(r.Intn(16), r.Intn(16), r.Intn(80)))
 		for i := range body {
 			body[i] = byte(r.Pick(0, 0, 0x10, 0x1F, 0xF0, 0xFF, 1, 2, 3, 255, r.Intn(256)))
 		}
